@@ -358,7 +358,7 @@ func runC20(r *simkit.R) {
 						}
 					}
 				}
-				if op.kind == "put" && op.err == nil && !op.faulted && markedOn[[2]string{fmt.Sprint(op.id), lastPutOn[op.id]}] {
+				if op.kind == "put" && op.err == nil && markedOn[[2]string{fmt.Sprint(op.id), lastPutOn[op.id]}] {
 					// (metabase Put to an address that carries a garbage mark reports success while the
 					// object stays hidden and is collected: findings F04 / F17 of the shard worlds)
 					out.bad = "its address carried a removal mark on the shard that stored it"
@@ -496,6 +496,30 @@ func runC20(r *simkit.R) {
 		}
 		lin = kept
 	}
+	// a drop or mark is a sequence of per-shard removals, not one atomic step: while it runs, a put
+	// overlapping it may land on a shard the removal has already visited or on one it visits
+	// later.  Each further shard visit is one more point inside the removal's interval at which
+	// the object may disappear again (only for removals that overlap a put of the same object).
+	var extra []simkit.LinOp
+	for _, o := range lin {
+		if k := o.In.(string); k != "drop" && k != "mark" {
+			continue
+		}
+		overlaps := false
+		for _, p := range lin {
+			if p.Key == o.Key && p.In.(string) == "put" && p.Call < o.Ret && o.Call < p.Ret {
+				overlaps = true
+			}
+		}
+		if !overlaps {
+			continue
+		}
+		r.Probe("removal overlaps a put of the same object: judged as one step per shard")
+		for i := 1; i < len(w.shards); i++ {
+			extra = append(extra, simkit.LinOp{Key: o.Key, In: o.In, Out: regOut{res: "err", bad: "(a further per-shard step of the removal running at that time)"}, Call: o.Call, Ret: o.Ret})
+		}
+	}
+	lin = append(lin, extra...)
 	bad, unknown := simkit.CheckLinearizable(lin, func(string) any { return stAbsent }, regStep, 20*time.Second)
 	if unknown {
 		r.Probe("linearizability check timed out (inconclusive)")
@@ -893,9 +917,9 @@ func runC08(r *simkit.R) {
 						if _, ok := lockAckAt[x]; ok && (gcVerdict[x] == 0 || gcDeleteAt[x] <= lockAckAt[x]) {
 							gcVerdict[x] = v
 						}
-						if len(w.holders(x)) <= 1 {
-							gcPending[x] = nil // (the last copy goes: the next round starts afresh)
-						}
+						// (the handling removes the object from every shard, whether it holds a copy or not,
+						// and several shards' collectors may run it for one object at once: the checks
+						// are never forgotten, a removal belongs to SOME earlier check of the run)
 						gcDeleteAt[x] = nbound
 						r.Probe("expired-objects handling removes an object physically")
 					}
@@ -1004,6 +1028,17 @@ func runC08(r *simkit.R) {
 					r.Probe("lock accepted for a stored object")
 				} else if w.u.Specs[op.id].Exp > w.u.Specs[armedBy[x]].Exp {
 					armedBy[x] = op.id
+					// (the longer-living lock takes over the protection: did IT reach every holder?)
+					for _, s := range w.shards {
+						hasX, _ := s.fst.Exists(w.addr(x))
+						hasL, _ := s.fst.Exists(w.addr(op.id))
+						if hasX && !hasL {
+							partial[x] = true
+							r.Probe("lock acknowledged although a shard holding the object did not store it")
+						} else if !hasL {
+							partialAny[x] = true
+						}
+					}
 				}
 			case "mode":
 				if op.err == nil {
